@@ -32,6 +32,11 @@ type channel struct {
 	Group    byte // 'g' Go API, 's' fresh script, 't' persistent base-defined helper (function or static method)
 	Snippet  string
 	Body     string // helper body (group 't'); %s = name letter
+	// Store (helpers named c.*): the helper is a closure CREATED on the base VM and kept there -
+	// "prop" in a static property, "arr" in a static array of callbacks, "fac" returned by a base
+	// function and then kept in the array, "cuf" kept in the array and invoked by call_user_func.
+	// A temp VM invokes it; its body must resolve (and define) through the invoking VM.
+	Store string
 }
 
 var channels = []channel{
@@ -65,6 +70,15 @@ var channels = []channel{
 	{Name: "t.fex", Kind: 'f', Group: 't', Body: "return function_exists('f%s') ? 'Y' : 'N';"},
 	{Name: "t.call", Kind: 'f', Identity: true, Group: 't', Body: "return f%s();"},
 	{Name: "m.call", Kind: 'f', Identity: true, Group: 't', Body: "return f%s();"},
+
+	{Name: "c.cex", Kind: 'c', Group: 't', Store: "arr", Body: "return class_exists('K%s', false) ? 'Y' : 'N';"},
+	{Name: "c.new", Kind: 'c', Identity: true, Group: 't', Store: "prop", Body: "$o = new K%s(); return $o->id();"},
+	{Name: "c.static", Kind: 'c', Identity: true, Group: 't', Store: "fac", Body: "return K%s::sid();"},
+	{Name: "c.kconst", Kind: 'c', Identity: true, Group: 't', Store: "cuf", Body: "return K%s::KID;"},
+	{Name: "c.iconst", Kind: 'i', Identity: true, Group: 't', Store: "prop", Body: "return I%s::IID;"},
+	{Name: "c.fex", Kind: 'f', Group: 't', Store: "arr", Body: "return function_exists('f%s') ? 'Y' : 'N';"},
+	{Name: "c.call", Kind: 'f', Identity: true, Group: 't', Store: "prop", Body: "return f%s();"},
+	{Name: "c.call2", Kind: 'f', Identity: true, Group: 't', Store: "arr", Body: "$g = function() { return f%s(); }; return $g();"},
 }
 
 // helperRef is how a fresh script invokes the persistent helper of a channel.
@@ -77,6 +91,16 @@ func (c channel) helperRef(letter string) string {
 }
 
 func (c channel) snippet(letter string) string {
+	if c.Store != "" {
+		key := c.Name[2:] + "_" + letter
+		switch c.Store {
+		case "prop":
+			return "$f=C12Hub::$p_" + key + ";$r=$f();"
+		case "cuf":
+			return "$r=call_user_func(C12Hub::$cbs['" + key + "']);"
+		}
+		return "$f=C12Hub::$cbs['" + key + "'];$r=$f();"
+	}
 	if c.Group == 't' {
 		return "$r=" + c.helperRef(letter) + ";"
 	}
@@ -97,10 +121,10 @@ func quarantinable() []string {
 // prelude is the code loaded on the base VM before the history starts: neutral parents and
 // the persistent helpers. The helpers are parsed while no pool name exists anywhere, so every
 // reference inside them is resolved when they run, through the VM of the running code.
-func prelude(names int, off map[string]bool) string {
+func prelude(names int, off map[string]bool, dir string) string {
 	var sb strings.Builder
 	sb.WriteString("<?php\nclass C12Base { public function base0() { return 0; } }\ninterface C12IBase { }\n")
-	var methods strings.Builder
+	var methods, props, closures strings.Builder
 	for n := 0; n < names; n++ {
 		l := nameLetter(n)
 		for _, c := range channels {
@@ -108,18 +132,52 @@ func prelude(names int, off map[string]bool) string {
 				continue
 			}
 			body := fmt.Sprintf(c.Body, l)
-			if c.Name[0] == 'm' {
-				fmt.Fprintf(&methods, "  public static function %s_%s() { %s }\n", c.Name[2:], l, body)
-			} else {
-				fmt.Fprintf(&sb, "function c12t_%s_%s() { %s }\n", c.Name[2:], l, body)
+			key := c.Name[2:] + "_" + l
+			switch {
+			case c.Store == "prop":
+				fmt.Fprintf(&props, "  public static $p_%s = null;\n", key)
+				fmt.Fprintf(&closures, "C12Hub::$p_%s = function() { %s };\n", key, body)
+			case c.Store == "fac":
+				fmt.Fprintf(&closures, "function c12_mk_%s() { return function() { %s }; }\nC12Hub::$cbs['%s'] = c12_mk_%s();\n", key, body, key, key)
+			case c.Store != "":
+				fmt.Fprintf(&closures, "C12Hub::$cbs['%s'] = function() { %s };\n", key, body)
+			case c.Name[0] == 'm':
+				fmt.Fprintf(&methods, "  public static function %s() { %s }\n", key, body)
+			default:
+				fmt.Fprintf(&sb, "function c12t_%s() { %s }\n", key, body)
 			}
 		}
 	}
 	sb.WriteString("class C12T {\n" + methods.String() + "}\n")
+	sb.WriteString("class C12Hub {\n  public static $cbs = [];\n" + props.String() + "}\n")
+	sb.WriteString(closures.String())
+	// definition routes through base-created closures: include from inside a closure, and a
+	// function declared by the closure body (one file per name so that the declaration's source
+	// path carries the shared serial 9000+n)
+	sb.WriteString("C12Hub::$cbs['inc'] = function($p) { include $p; return 1; };\n")
+	for n := 0; n < names; n++ {
+		sb.WriteString("include '" + filepath.Join(dir, fmt.Sprintf("def_%d.php", sharedSerial(n))) + "';\n")
+	}
 	return sb.String()
 }
 
-func defSource(dk byte, name, variant, serial int) (src string, viaInclude bool) {
+func sharedSerial(name int) int { return 9000 + name }
+
+// declClosureFile is the file that creates (on the base VM) the closure whose body declares f<name>.
+func declClosureFile(name int) string {
+	l := nameLetter(name)
+	return "<?php\nC12Hub::$cbs['decl_" + l + "'] = function() { function f" + l + "() { return " + strconv.Itoa(sharedSerial(name)) + "; } return 1; };\n"
+}
+
+// definition routes
+const (
+	routeDirect      = iota // source parsed on a parser bound to the VM and run there
+	routeInclude            // include of a unique file from a fresh script on the VM
+	routeClosureInc         // include of a unique file from inside a base-created closure invoked on the VM
+	routeClosureDecl        // function declared by the body of a base-created closure invoked on the VM
+)
+
+func defSource(dk byte, name, variant, serial int) (src string, route int) {
 	l := nameLetter(name)
 	s := strconv.Itoa(serial)
 	switch dk {
@@ -127,32 +185,40 @@ func defSource(dk byte, name, variant, serial int) (src string, viaInclude bool)
 		body := " { const KID = " + s + "; public function id() { return " + s + "; } public static function sid() { return " + s + "; } }"
 		switch variant {
 		case 1:
-			return "<?php\nclass K" + l + " extends C12Base" + body + "\n", false
+			return "<?php\nclass K" + l + " extends C12Base" + body + "\n", routeDirect
 		case 2:
-			return "<?php\nclass K" + l + " implements C12IBase" + body + "\n", false
+			return "<?php\nclass K" + l + " implements C12IBase" + body + "\n", routeDirect
 		case 3:
-			return "<?php\nclass K" + l + body + "\n", true
+			return "<?php\nclass K" + l + body + "\n", routeInclude
 		case 4:
-			return "<?php\nfinal class K" + l + body + "\n", false
+			return "<?php\nfinal class K" + l + body + "\n", routeDirect
+		case 5:
+			return "<?php\nclass K" + l + body + "\n", routeClosureInc
 		}
-		return "<?php\nclass K" + l + body + "\n", false
+		return "<?php\nclass K" + l + body + "\n", routeDirect
 	case 'i':
 		body := " { const IID = " + s + "; }"
 		switch variant {
 		case 1:
-			return "<?php\ninterface I" + l + " extends C12IBase" + body + "\n", false
+			return "<?php\ninterface I" + l + " extends C12IBase" + body + "\n", routeDirect
 		case 2:
-			return "<?php\ninterface I" + l + body + "\n", true
+			return "<?php\ninterface I" + l + body + "\n", routeInclude
+		case 3:
+			return "<?php\ninterface I" + l + body + "\n", routeClosureInc
 		}
-		return "<?php\ninterface I" + l + body + "\n", false
+		return "<?php\ninterface I" + l + body + "\n", routeDirect
 	default:
 		switch variant {
 		case 1:
-			return "<?php\nfunction f" + l + "() { return " + s + "; }\n", true
+			return "<?php\nfunction f" + l + "() { return " + s + "; }\n", routeInclude
 		case 2:
-			return "<?php\nfunction f" + l + "(): int { $x = " + s + "; return $x; }\n", false
+			return "<?php\nfunction f" + l + "(): int { $x = " + s + "; return $x; }\n", routeDirect
+		case 3:
+			return "<?php\nfunction f" + l + "() { return " + s + "; }\n", routeClosureInc
+		case 4:
+			return declClosureFile(name), routeClosureDecl
 		}
-		return "<?php\nfunction f" + l + "() { return " + s + "; }\n", false
+		return "<?php\nfunction f" + l + "() { return " + s + "; }\n", routeDirect
 	}
 }
 
@@ -647,7 +713,13 @@ func runCase(c Case, off map[string]bool, dir string, verbose bool) (res caseRes
 		x.base, x.bp = ori.NewVM()
 		x.base.SetThrowControl(func(acl data.Control) { x.unc = acl })
 		x.temps = make([]*runtime.TempVM, c.Temps+1)
-		if _, et := x.runScript(0, prelude(c.Names, off), filepath.Join(dir, "prelude.php")); et != "" {
+		for n := 0; n < c.Names; n++ {
+			if err := os.WriteFile(filepath.Join(dir, fmt.Sprintf("def_%d.php", sharedSerial(n))), []byte(declClosureFile(n)), 0o644); err != nil {
+				x.res.Aborted = "cannot write closure file: " + err.Error()
+				return
+			}
+		}
+		if _, et := x.runScript(0, prelude(c.Names, off, dir), filepath.Join(dir, "prelude.php")); et != "" {
 			x.res.Aborted = "prelude failed: " + et
 			return
 		}
@@ -700,24 +772,40 @@ func runCase(c Case, off map[string]bool, dir string, verbose bool) (res caseRes
 					x.res.Aborted = "case redefines a base name (generator error)"
 					return
 				}
-				serial := x.m.Define(o.VM, o.DK, o.Name)
+				_, route := defSource(o.DK, o.Name, o.Var, 0)
+				var serial int
+				if route == routeClosureDecl {
+					// the declaration is one AST shared by every VM that runs the closure
+					serial = sharedSerial(o.Name)
+					x.m.DefineAs(o.VM, o.DK, o.Name, serial)
+				} else {
+					serial = x.m.Define(o.VM, o.DK, o.Name)
+				}
 				if o.VM != 0 {
 					x.res.TempDefs++
 				}
-				src, inc := defSource(o.DK, o.Name, o.Var, serial)
+				src, _ := defSource(o.DK, o.Name, o.Var, serial)
 				path := filepath.Join(dir, fmt.Sprintf("def_%d.php", serial))
-				var et string
-				if inc {
+				if route == routeInclude || route == routeClosureInc {
 					if err := os.WriteFile(path, []byte(src), 0o644); err != nil {
 						x.res.Aborted = "cannot write definition file: " + err.Error()
 						return
 					}
-					_, et = x.runScript(o.VM, "<?php\ninclude '"+path+"';\n", filepath.Join(dir, fmt.Sprintf("inc_%d.php", serial)))
-				} else {
+				}
+				var et string
+				runner := filepath.Join(dir, fmt.Sprintf("inc_%d_%d.php", serial, x.step))
+				switch route {
+				case routeInclude:
+					_, et = x.runScript(o.VM, "<?php\ninclude '"+path+"';\n", runner)
+				case routeClosureInc:
+					_, et = x.runScript(o.VM, "<?php\n$f=C12Hub::$cbs['inc'];$f('"+path+"');\n", runner)
+				case routeClosureDecl:
+					_, et = x.runScript(o.VM, "<?php\n$f=C12Hub::$cbs['decl_"+nameLetter(o.Name)+"'];$f();\n", runner)
+				default:
 					_, et = x.runScript(o.VM, src, path)
 				}
 				if verbose {
-					x.trace = append(x.trace, fmt.Sprintf("  definition #%d (include=%v): %s", serial, inc, strings.ReplaceAll(strings.TrimPrefix(src, "<?php\n"), "\n", " ")))
+					x.trace = append(x.trace, fmt.Sprintf("  definition #%d (route %d): %s", serial, route, strings.ReplaceAll(strings.TrimPrefix(src, "<?php\n"), "\n", " ")))
 				}
 				if et != "" {
 					x.violation(fmt.Sprintf("define-failed/%s/%c/v%d", side(o.VM), o.DK, o.Var),
